@@ -96,7 +96,9 @@ inductive Ev where
   | refresh
   | notification
   | badHeader (k : Nat)     -- 0 marker, 1 length < 19, 2 length > 4096, 3 unknown type
-  | close                   -- the remote closes the current connection
+  | close                   -- the remote closes the current connection between two messages
+  | connLost (k : Nat)      -- the transport fails inside a message: 1 inside the header, 2 between
+                            -- header and body, 3 inside the body (readAll error in recvMessageWithError)
   | tick (t : Nat)          -- silence for t seconds
   | enable | disable | shutdown | reset | delete
 deriving Repr, DecidableEq, Inhabited
@@ -155,6 +157,33 @@ def hdrSub (k : Nat) : Nat :=
 /-- fsm.isDominant: the connection initiated by the local speaker survives. -/
 def dominant (localID localAS remoteID remoteAS : Nat) : Bool :=
   localID > remoteID || (localID == remoteID && localAS > remoteAS)
+
+/-- outcome of connection-collision resolution in opensent(): the session continues on
+    connection `c` with the OPEN `o` recorded as fsm.recvOpen, or the accepted connection's OPEN
+    is refused with OPEN Message Error `sub` (back to IDLE). -/
+inductive CollOut where
+  | session (c : Conn) (o : OpenMsg)
+  | refused (sub : Nat)
+deriving Repr, DecidableEq, Inhabited
+
+/-- opensent(), `case e := <-recvChan` with a completed outgoing connection already waiting in
+    fsm.outgoingConnCh (tryReceiveOutgoingConn): the accepted connection's OPEN `inc` is validated
+    by handleOpen first; isDominant is asked about `inc`. `out` is the OPEN the
+    outgoing-connection manager received (and validated). -/
+def collideIncomingFirst (c : Cfg) (inc out : OpenMsg) : CollOut :=
+  match validateOpen c inc with
+  | some sub => .refused sub
+  | none =>
+    if dominant c.localID c.localAS inc.id inc.as then .session .o out else .session .p inc
+
+/-- opensent(), `case result := <-fsm.outgoingConnCh` with the accepted connection's OPEN `inc`
+    already pending on recvChan: only an `inc` that handleOpen accepts makes a collision;
+    isDominant is asked about `out`; otherwise the outgoing connection is simply taken. -/
+def collideOutgoingFirst (c : Cfg) (inc out : OpenMsg) : CollOut :=
+  match validateOpen c inc with
+  | some _ => .session .o out
+  | none =>
+    if dominant c.localID c.localAS out.id out.as then .session .o out else .session .p inc
 
 /-- every way back to IDLE: fsmHandler.loop stores the state, idle() starts its timer with the
     current fsm.idleHoldTime; a PeerDown drops the Adj-RIB-In (no graceful restart). -/
@@ -229,7 +258,7 @@ def onOpensent (c : Cfg) (s : St) (e : Ev) : St × List Out :=
       (s1, [.ka s.cur s.now, .trans .opensent .openconfirm s.admin s.now])
   | .keepalive | .update _ | .refresh | .notification => notifyIdle s 5 1
   | .badHeader k => notifyIdle s 1 (hdrSub k)
-  | .close   => let (s', tr) := toIdle s s.idleHold; (s', tr)
+  | .close | .connLost _ => let (s', tr) := toIdle s s.idleHold; (s', tr)
   | .enable  => ({ s with admin := .up }, [])
   | .disable => notifyIdle { s with admin := .down } 6 2
   | .delete  => die s [.close s.cur s.now]
@@ -245,7 +274,7 @@ def onOpenconfirm (c : Cfg) (s : St) (e : Ev) : St × List Out :=
   | .notification => closeIdle s
   | .open _ | .update _ | .refresh => notifyIdle s 5 2
   | .badHeader k => notifyIdle s 1 (hdrSub k)
-  | .close   => let (s', tr) := toIdle s s.idleHold; (s', tr)
+  | .close | .connLost _ => let (s', tr) := toIdle s s.idleHold; (s', tr)
   | .enable  => ({ s with admin := .up }, [])
   | .disable => notifyIdle { s with admin := .down } 6 2
   | .delete  => die s [.close s.cur s.now]
@@ -269,7 +298,7 @@ def onEstablished (c : Cfg) (s : St) (e : Ev) : St × List Out :=
   | .notification => closeIdle s
   | .open _ => notifyIdle s 5 3
   | .badHeader k => notifyIdle s 1 (hdrSub k)
-  | .close   => let (s', tr) := toIdle s s.idleHold; (s', tr)
+  | .close | .connLost _ => let (s', tr) := toIdle s s.idleHold; (s', tr)
   | .enable  => ({ s with admin := .up }, [])
   | .disable => notifyIdle { s with admin := .down } 6 2
   | .shutdown => notifyIdle s 6 2
